@@ -41,7 +41,11 @@ func c03Check(res *vh.Result) bsVisit {
 				}
 			case "lget":
 				if r.Stored && w.cfg.LoadTTL > 0 {
-					dl[r.V] = c03SatAdd(r.Now, w.cfg.LoadTTL)
+					at := r.Now
+					if r.LoadEnd != 0 {
+						at = r.LoadEnd // the value is stored when its loader returns
+					}
+					dl[r.V] = c03SatAdd(at, w.cfg.LoadTTL)
 				}
 			}
 			var hits [][2]int
@@ -101,6 +105,9 @@ func c03Cfgs() []*bsCfg {
 			Ops: []bsOp{T(1, sec), T(1, 500*1e6), G(1), R}},
 		{Name: "rearm", MaxSize: 4, ChanSize: 4, BufSize: 2, NClients: 2, OpsPer: 3, Depth: 9, Ticks: 2, TickNs: 1100 * 1e6, DlAdvs: edge, MaxAdv: 2,
 			Ops: []bsOp{T(1, sec), T(1, 3*sec), S(1), G(1)}},
+		// a REFUSED write (cost above MaxSize) with a long TTL on a resident, soon-expiring key: it must not touch the deadline
+		{Name: "refused", MaxSize: 4, ChanSize: 4, BufSize: 2, NClients: 1, OpsPer: 4, Depth: 8, Ticks: 2, TickNs: 1100 * 1e6, DlAdvs: edge, MaxAdv: 2,
+			Ops: []bsOp{T(1, sec), {"set", 1, 5, 90 * sec}, {"set", 1, 4, 3 * sec}, G(1), R}},
 		{Name: "huge", MaxSize: 4, ChanSize: 4, BufSize: 2, NClients: 1, OpsPer: 3, Depth: 7, Ticks: 1, TickNs: sec, Advs: []int64{61 * sec}, MaxAdv: 1,
 			Ops: []bsOp{T(1, 1<<62), T(1, math.MaxInt64), T(1, math.MaxInt64-5*sec), G(1), R}},
 		{Name: "loading", MaxSize: 4, ChanSize: 4, BufSize: 2, Loading: true, LoadCost: 1, LoadTTL: 40 * sec, NClients: 1, OpsPer: 4, Depth: 8, Ticks: 2, TickNs: sec, Advs: []int64{31 * sec}, DlAdvs: edge, MaxAdv: 2,
